@@ -48,7 +48,7 @@ func Globals() []Global {
 type Point struct {
 	Kind    string // sched | maporder
 	Site    string
-	N       int  // number of alternatives
+	N       int // number of alternatives
 	Chosen  int
 	Cur     int  // sched: running thread before the choice (-1 none)
 	CurOK   bool // sched: the running thread was still enabled (choosing another one is a preemption)
@@ -56,8 +56,8 @@ type Point struct {
 }
 
 var (
-	prefix  []int
-	Points  []Point
+	prefix   []int
+	Points   []Point
 	choosing bool
 )
 
@@ -100,10 +100,10 @@ func choose(kind, site string, n int, cur int, curOK bool, enabled []int) int {
 // ---------------------------------------------------------------- clock / host seams
 
 var (
-	fakeNow    time.Time
-	nowCalls   int
-	fakeHost   string
-	hostCalls  int
+	fakeNow   time.Time
+	nowCalls  int
+	fakeHost  string
+	hostCalls int
 )
 
 // SetClock installs a fixed clock (zero = real clock).
@@ -254,22 +254,22 @@ type wordState struct {
 }
 
 var (
-	active     bool
-	regions    []region
-	cur        *thread
-	threads    []*thread
-	ctl        chan int
-	Events     []Event
-	contended  = map[[2]uintptr]bool{} // (region, word) written by some thread in some execution
-	newContended bool
-	words      map[uintptr]*wordState
-	Races      []Race
-	raceSeen   map[string]bool
-	muVC       map[*sync.Mutex][]int
-	atomVC     map[unsafe.Pointer][]int
+	active                    bool
+	regions                   []region
+	cur                       *thread
+	threads                   []*thread
+	ctl                       chan int
+	Events                    []Event
+	contended                 = map[[2]uintptr]bool{} // (region, word) written by some thread in some execution
+	newContended              bool
+	words                     map[uintptr]*wordState
+	Races                     []Race
+	raceSeen                  map[string]bool
+	muVC                      map[*sync.Mutex][]int
+	atomVC                    map[unsafe.Pointer][]int
 	SharedReads, SharedWrites int
-	AllAccesses int
-	UnmodelledSync []string
+	AllAccesses               int
+	UnmodelledSync            []string
 )
 
 func lookup(a uintptr) (region, uintptr, bool) {
